@@ -1,7 +1,7 @@
 (* C04 - best trials are the best COMPLETED trials in order; direction is symmetric. Statements only. *)
 From Coq Require Import List ZArith QArith Bool Sorting.Sorted Sorting.Permutation.
 Import ListNotations.
-From KT Require Import Metrics MetricsProofs Lifecycle Best HB HBSym LSym HBRun HBSymRun.
+From KT Require Import Metrics MetricsProofs Lifecycle Best HB HBSym LSym HBRun HBSymRun BayesSym.
 Local Close Scope Q_scope.
 
 (* get_best_trials(n) returns min(n, #trials) trials *)
@@ -67,6 +67,29 @@ Theorem C04_hyperband_search_symmetric : forall (V : Type) (h : hcfg) (vdef : V)
   = map fst (run vdef score_fn (hpopulate h mk vdef) hk hk (fun a => a) reissue c (init a) ops).
 Proof. exact @hyperband_search_sym. Qed.
 
+(* ... and the Bayesian oracle. Its numerical machinery - value_to_prob, GaussianProcessRegressor.fit / predict, the seeded
+   L-BFGS-B restarts - enters as uninterpreted FUNCTIONS of their inputs (vecof, fit, pess, optimize); what is modelled is the
+   glue of populate_space / _vectorize_trials (BayesSym.v: which trials enter the training set, in which order, with which
+   sign; when the warm-up ends), compared with the real method on every run. The minimising oracle looking at negated scores
+   hands the Gaussian process exactly the training set the maximising oracle hands it ... *)
+Theorem C04_bayes_populate_symmetric : forall (V Sc R GP RS Vec : Type) (neg : Sc -> Sc) (vecof : R -> V -> Vec) (veclen : Vec -> nat)
+  (nfeat : GP -> option nat) (pess : GP -> Vec -> scored Sc) (fit : list (Vec * scored Sc) -> GP) (optimize : GP -> RS -> Vec * RS)
+  (v2v : R -> Vec -> V) (nip : R -> nat) (rpop : R -> tid -> R * status * V) (a : bstate) (ts : list (trial V Sc)) (b : bool) (id : tid),
+  bpopulate neg vecof veclen nfeat pess fit optimize v2v nip rpop false a (List.map (ntr neg) ts) b id =
+  bpopulate neg vecof veclen nfeat pess fit optimize v2v nip rpop true a ts b id.
+Proof. exact @bpopulate_sym. Qed.
+(* ... hence the two searches answer every request of every history identically (any number of tuners, ongoing trials being
+   estimated by the model fitted last, retries, reloads) *)
+Theorem C04_bayes_search_symmetric : forall (V Sc R GP RS Vec : Type) (neg : Sc -> Sc) (vdef : V) (vecof : R -> V -> Vec) (veclen : Vec -> nat)
+  (nfeat : GP -> option nat) (pess : GP -> Vec -> scored Sc) (fit : list (Vec * scored Sc) -> GP) (optimize : GP -> RS -> Vec * RS)
+  (v2v : R -> Vec -> V) (nip : R -> nat) (rpop : R -> tid -> R * status * V) (score_fn : V -> scored Sc)
+  (hook_end hook_end_abort : bstate -> tid -> V -> bstate) (hook_reload : bstate -> bstate) (reissue : V -> V) (c : cfg) (a : bstate) (ops : list op),
+  List.map fst (run vdef (fun v : V => sneg neg (score_fn v)) (bpopulate neg vecof veclen nfeat pess fit optimize v2v nip rpop false)
+                    hook_end hook_end_abort hook_reload reissue c (init a) ops) =
+  List.map fst (run vdef score_fn (bpopulate neg vecof veclen nfeat pess fit optimize v2v nip rpop true)
+                    hook_end hook_end_abort hook_reload reissue c (init a) ops).
+Proof. exact @bayes_search_sym. Qed.
+
 Print Assumptions C04_length.
 Print Assumptions C04_completed_first.
 Print Assumptions C04_sorted.
@@ -75,3 +98,5 @@ Print Assumptions C04_ranking_symmetric.
 Print Assumptions C04_hyperband_symmetric.
 Print Assumptions C04_search_symmetric.
 Print Assumptions C04_hyperband_search_symmetric.
+Print Assumptions C04_bayes_populate_symmetric.
+Print Assumptions C04_bayes_search_symmetric.
